@@ -439,6 +439,13 @@ def force_shapes(rng, topo, flavour, g):
             do({'op': 'keep_handle', 'service': sc})
             do({'op': 'rename', 'elem': ['service', sc], 'new': scn})
             do({'op': 'peer', 'a': ['kept'], 'b': scn})
+        # a port of a node's own service that is connected to a slice-wide service AND carries a plain link to another interface
+        xsw, xn, xc, xs = g.fresh('fsw'), g.fresh('fn'), g.fresh('fc'), g.fresh('fs')
+        if do({'op': 'add_switch', 'name': xsw, 'node_id': None, 'site': 'RENC', 'nports': 2}) and \
+                do({'op': 'add_node', 'name': xn, 'node_id': None, 'site': 'RENC', 'ntype': 'VM'}) and \
+                do({'op': 'add_component', 'node': xn, 'name': xc, 'node_id': None, 'model_type': 'SmartNIC_ConnectX_6'}):
+            if do({'op': 'add_network_service', 'name': xs, 'node_id': None, 'nstype': 'L2Bridge', 'interfaces': [[xsw, 'p1'], [xsw, 'p2']]}):
+                do({'op': 'add_link', 'name': g.fresh('l'), 'node_id': None, 'ltype': 'Patch', 'interfaces': [[xsw, 'p1'], [xn, xc + '-p1']]})
         # a service whose creating handle is kept while, through a handle looked up later, one interface is taken off and another
         # connected (as many as before, other ones)
         wn, wc1, wc2, ws = g.fresh('fn'), g.fresh('fc'), g.fresh('fc'), g.fresh('swp')
